@@ -99,6 +99,10 @@ fn make(variant: &str) -> Option<Option<Box<dyn DynSkein>>> {
                 256 => mk!($ty, U256),
                 257 => mk!($ty, U257),
                 1000 => mk!($ty, U1000),
+                // more than 256 / 65536 counter-mode output blocks
+                8256 => mk!($ty, Sum<U8192, U64>),
+                16512 => mk!($ty, Sum<U16384, U128>),
+                33024 => mk!($ty, Sum<U32768, U256>),
                 _ => return None,
             }
         };
